@@ -118,6 +118,9 @@ func (m Mode) leafSorts(t types.Type) ([]Sort, bool) {
 			return []Sort{SI}, true
 		case u.Kind() == types.UntypedNil:
 			return []Sort{SI}, true
+		case u.Kind() == types.Invalid:
+			// the unused key/value component of a range-over-string `next` tuple
+			return []Sort{SI}, true
 		}
 		return nil, false
 	case *types.Pointer:
